@@ -524,11 +524,12 @@ Theorem anchors_present : forallb (anchor_present Gen.Sites_gen.sites) required_
 Proof. vm_compute. reflexivity. Qed.
 
 Definition is_sched_ptr_float (k : kind) : bool :=
-  match k with KGo | KSelect | KFloat | KPointer | KMapIter | KRangeFunc => true | _ => false end.
+  match k with KGo | KSelect | KFloat | KPointer | KMapIter | KRangeFunc | KGlobal => true | _ => false end.
 Definition consensus_zone (s : site) : bool := match s_zone s with ZConsensus => true | _ => false end.
 
-(* currently: no goroutine, channel, float, pointer-value, map-iterator construct at all in
-   consensus-zone files, and nothing in generated protobuf code *)
+(* currently: no goroutine, channel, float, pointer-value, map-iterator construct and no
+   package-level variable that can change after init (process-local state) at all in
+   consensus-zone files *)
 Theorem no_sched_ptr_float_sites :
   forallb (fun s => negb (consensus_zone s && is_sched_ptr_float (s_kind s))) Gen.Sites_gen.sites = true.
 Proof. vm_compute. reflexivity. Qed.
